@@ -11,6 +11,7 @@ import (
 	"github.com/klev-dev/klevdb/pkg/index"
 	"github.com/klev-dev/klevdb/pkg/message"
 	"github.com/klev-dev/klevdb/pkg/segment"
+	"github.com/klev-dev/klevdb/pkg/vhook"
 )
 
 type writer struct {
@@ -94,8 +95,10 @@ func (w *writer) Publish(msgs []message.Message) (int64, error) {
 			return OffsetInvalid, err
 		}
 		indexTime = items[i].Timestamp
+		vhook.At("writer.publish.afterRecord")
 	}
 
+	vhook.At("writer.publish.beforeIndexAppend")
 	return w.index.append(items), nil
 }
 
